@@ -24,6 +24,7 @@ from ..model_tools.introspection.sqlalchemy import get_sqlalchemy_shape
 from ..model_tools.introspection.typed_dict import get_typed_dict_shape
 from ..provider.essential import CannotProvide, Mediator
 from ..provider.loc_stack_filtering import create_loc_stack_checker
+from ..type_tools import is_pydantic_class, strip_alias
 from ..type_tools.generic_resolver import GenericResolver, MembersStorage
 from .essential import RequestChecker
 from .located_request import LocatedRequest, LocatedRequestChecker
@@ -150,13 +151,27 @@ class ShapeGenericResolver(Generic[ShapeT]):
         )
         if members_storage.meta is None:
             raise CannotProvide
-        return replace(
+        shape = replace(
             members_storage.meta,
             fields=tuple(  # type: ignore[arg-type]
                 replace(fld, type=members_storage.members[fld.id])
                 for fld in members_storage.meta.fields
             ),
         )
+        return self._fix_pydantic_constructor(shape)
+
+    def _fix_pydantic_constructor(self, shape: ShapeT) -> ShapeT:
+        # A parametrized pydantic model is a real class validating fields against its arguments,
+        # the origin class validates them against bounds of type vars
+        tp = self._initial_request.last_loc.type
+        if (
+            isinstance(shape, InputShape)
+            and is_pydantic_class(tp)
+            and shape.constructor is strip_alias(tp)
+            and shape.constructor is not tp
+        ):
+            return replace(shape, constructor=tp)
+        return shape
 
     def _get_members(self, tp) -> MembersStorage[str, Optional[ShapeT]]:
         try:
